@@ -132,6 +132,7 @@ class Net:
         self.log = []
         self.n = 0
         self.taps = []           # callables (src_addr, dst_addr, data) observing every send
+        self.policy = None
 
     @staticmethod
     def key(addr):
@@ -151,6 +152,13 @@ class Net:
             tap(src, addr, data)
         if self.key(src) in self.blackhole or self.key(addr) in self.blackhole:
             return
+        if self.policy is not None:
+            # scenario-controlled fate of this datagram: None = default, [] = drop, [d1, d2, ..] = one copy per delay
+            fate = self.policy(src, addr, data, self.n)
+            if fate is not None:
+                for d in fate:
+                    self.loop.call_at(self.loop.time() + d, self.deliver, src, addr, data)
+                return
         if self.rng.random() < self.p_drop:
             return
         copies = 2 if self.rng.random() < self.p_dup else 1
